@@ -243,3 +243,506 @@ Proof.
     rewrite G. destruct (forallb (fun x => num_ok U8 b0 (Z.of_N x)) (x0 :: b)); iff_fin.
 Qed.
 End Value.
+
+(* ------------------------------------------------------------------------------------------ *)
+(* decoder facts needed below                                                                   *)
+Lemma dec_elems_nlen : forall fl f md d ek n st vs rest,
+  dec_elems fl f md d ek n st = Ok (vs, rest) -> nlen vs = n.
+Proof.
+  induction f as [|f IH]; intros md d ek n st vs rest D; [discriminate|].
+  rewrite dec_elems_S' in D. destruct (n =? 0) eqn:N0.
+  - apply N.eqb_eq in N0. inversion D; subst. apply nlen_nil.
+  - apply N.eqb_neq in N0.
+    destruct (resolve fl ek st) as [[k st']| | |]; cbn [bind] in D; try discriminate.
+    destruct (dec_deeper fl f md d k st') as [[v st1]| | |]; cbn [bind] in D; try discriminate.
+    destruct (dec_elems fl f md d ek (n - 1) st1) as [[vs' st2]| | |] eqn:D2; cbn [bind] in D; try discriminate.
+    inversion D; subst. rewrite nlen_cons. apply IH in D2. lia.
+Qed.
+Lemma dec_entries_nlen : forall fl f md d kk vk n st es rest,
+  dec_entries fl f md d kk vk n st = Ok (es, rest) -> nlen es = n.
+Proof.
+  induction f as [|f IH]; intros md d kk vk n st es rest D; [discriminate|].
+  rewrite dec_entries_S in D. destruct (n =? 0) eqn:N0.
+  - apply N.eqb_eq in N0. inversion D; subst. apply nlen_nil.
+  - apply N.eqb_neq in N0.
+    destruct (dec_deeper fl f md d kk st) as [[k st1]| | |]; cbn [bind] in D; try discriminate.
+    destruct (dec_deeper fl f md d vk st1) as [[x st2]| | |]; cbn [bind] in D; try discriminate.
+    destruct (dec_entries fl f md d kk vk (n - 1) st2) as [[es' st3]| | |] eqn:D3; cbn [bind] in D; try discriminate.
+    inversion D; subst. rewrite nlen_cons. apply IH in D3. lia.
+Qed.
+
+(* a terminal kind decodes to a leaf value *)
+Lemma leaf_is_leaf : forall fl k st v rest, is_container k = false ->
+  dec_body fl 1 0 0 k st = Ok (v, rest) -> is_leaf v = true.
+Proof.
+  intros fl k st v rest C D. rewrite dec_body_S in D.
+  destruct k; try discriminate C; unfold bind in D;
+    repeat match type of D with
+    | context [match ?x with _ => _ end] => destruct x; try discriminate D
+    end; inversion D; reflexivity.
+Qed.
+
+(* byte arrays: the element-wise decoder yields exactly the bytes of the batch read *)
+Lemma u8_elems_values : forall fl f m d n st vs rest,
+  dec_elems fl f m d (Some (KInt U8)) n st = Ok (vs, rest) ->
+  exists b, read_slice n st = Ok (b, rest) /\ vs = map u8val b.
+Proof.
+  induction f as [|f IH]; intros m d n st vs rest D; [discriminate|].
+  rewrite dec_elems_S in D. destruct (n =? 0) eqn:N0.
+  - apply N.eqb_eq in N0. subst n. inversion D; subst. exists []. unfold read_slice. rewrite take_zero. split; reflexivity.
+  - apply N.eqb_neq in N0.
+    destruct (dec_deeper fl f m d (KInt U8) st) as [[v st1]| | |] eqn:D1; cbn [bind] in D; try discriminate.
+    destruct (dec_elems fl f m d (Some (KInt U8)) (n - 1) st1) as [[vs' st2]| | |] eqn:D2; cbn [bind] in D; try discriminate.
+    inversion D; subst. unfold dec_deeper in D1. destruct (m <? d + 1); [discriminate|].
+    destruct f as [|f]; [discriminate|]. rewrite dec_body_S in D1. cbn [ikind_bytes] in D1.
+    destruct (read_slice 1 st) as [[s0 st1']| | |] eqn:S1; cbn [bind] in D1; try discriminate. inversion D1; subst.
+    apply read_slice_ok in S1. destruct S1 as [E L]. destruct s0 as [|b [|b2 s0]]; try (rewrite ?nlen_nil, ?nlen_cons in L; lia).
+    subst st. apply IH in D2. destruct D2 as [bs [R Ev]]. unfold read_slice in *. cbn [app]. rewrite take_succ by exact N0.
+    destruct (take (n - 1) st1) as [[a r]|]; [|discriminate]. inversion R; subst. eexists. split; reflexivity.
+Qed.
+
+(* ------------------------------------------------------------------------------------------ *)
+(* the typed machine                                                                            *)
+Section Machine.
+Variable s : schema.
+Variable root : tid.
+Variable cfg : tconfig.
+Notation md := (c_md cfg).
+Notation stepc := (step Scrypto cfg).
+Notation rvb := (read_value_body Scrypto cfg).
+Notation rv := (read_value Scrypto cfg).
+Notation tstep := (typed_step s root cfg).
+Notation tout' := (typed_out s root).
+Notation gti := (get_type_id root).
+
+Fixpoint tysteps (n : nat) (cs : list ctype) (st : tstate) : option (list ctype * tstate) :=
+  match n with
+  | O => Some (cs, st)
+  | S n' => match tstep cs st with TyNext cs' st' => tysteps n' cs' st' | TyDone _ => None end
+  end.
+Lemma tysteps_app : forall n m cs st cs1 s1, tysteps n cs st = Some (cs1, s1) ->
+  tysteps (n + m) cs st = tysteps m cs1 s1.
+Proof.
+  induction n as [|n IH]; intros m cs st cs1 s1 H; cbn [tysteps plus] in *.
+  - inversion H. reflexivity.
+  - destruct (tstep cs st) as [cs' st'|]; [|discriminate]. apply IH. exact H.
+Qed.
+
+Definition TFail (cs : list ctype) (st : tstate) : Prop :=
+  exists n cs1 s1 r, tysteps n cs st = Some (cs1, s1) /\ tstep cs1 s1 = TyDone r /\ r <> POk.
+Definition TReach (o : tout) (cs : list ctype) (n : nat) (tgt : list ctype * tstate) : Prop :=
+  exists cs1 s1, tout' cs o = TyNext cs1 s1 /\ tysteps n cs1 s1 = Some tgt.
+Definition TFailOut (cs : list ctype) (o : tout) : Prop :=
+  (exists r, tout' cs o = TyDone r /\ r <> POk) \/
+  (exists cs1 s1, tout' cs o = TyNext cs1 s1 /\ TFail cs1 s1).
+
+Lemma tysteps_S : forall cs st o n tgt, stepc st = o -> TReach o cs n tgt -> tysteps (S n) cs st = Some tgt.
+Proof. intros cs st o n tgt H [cs1 [s1 [E R]]]. cbn [tysteps]. unfold typed_step. rewrite H, E. exact R. Qed.
+Lemma TFail_S : forall cs st o, stepc st = o -> TFailOut cs o -> TFail cs st.
+Proof.
+  intros cs st o H [[r [E N]]|[cs1 [s1 [E [n [cs2 [s2 [r [R [T N]]]]]]]]]].
+  - exists O, cs, st, r. cbn [tysteps]. unfold typed_step. rewrite H. repeat split; assumption.
+  - exists (S n), cs2, s2, r. cbn [tysteps]. unfold typed_step at 1. rewrite H, E. repeat split; assumption.
+Qed.
+Lemma TFail_steps : forall n cs st cs1 s1, tysteps n cs st = Some (cs1, s1) -> TFail cs1 s1 -> TFail cs st.
+Proof.
+  intros n cs st cs1 s1 R [m [cs2 [s2 [r [R2 [T N]]]]]]. exists (n + m)%nat, cs2, s2, r.
+  rewrite (tysteps_app n m _ _ _ _ R). repeat split; assumption.
+Qed.
+Lemma TReach_steps : forall o cs n cs1 s1 m tgt, TReach o cs n (cs1, s1) -> tysteps m cs1 s1 = Some tgt ->
+  TReach o cs (n + m) tgt.
+Proof.
+  intros o cs n cs1 s1 m tgt [c0 [s0 [E R]]] R2. exists c0, s0. split; [exact E|].
+  rewrite (tysteps_app n m _ _ _ _ R). exact R2.
+Qed.
+Lemma TReach_Fail : forall o cs n cs1 s1, TReach o cs n (cs1, s1) -> TFail cs1 s1 -> TFailOut cs o.
+Proof.
+  intros o cs n cs1 s1 [c0 [s0 [E R]]] F. right. exists c0, s0. split; [exact E|]. eapply TFail_steps; eassumption.
+Qed.
+
+(* the typed layer on the shapes of `complete` *)
+Lemma tout_terminal : forall cs v start Sk st next,
+  tout' cs (complete cfg (EvTerminal v) start Sk st next) =
+  match gti cs Sk with
+  | None => TyDone PPanic
+  | Some t => match check_terminal s t v with Some err => TyDone (PErr err) | None => TyNext cs (mk next Sk st) end
+  end.
+Proof. reflexivity. Qed.
+Lemma tout_batch : forall cs b start Sk st next,
+  tout' cs (complete cfg (EvBatch b) start Sk st next) =
+  match gti cs Sk with
+  | None => TyDone PPanic
+  | Some t => match check_batch s t b with Some err => TyDone (PErr err) | None => TyNext cs (mk next Sk st) end
+  end.
+Proof. reflexivity. Qed.
+Lemma tout_end : forall c cs h start Sk st next,
+  tout' (c :: cs) (complete cfg (EvContainerEnd h) start Sk st next) = TyNext cs (mk next Sk st).
+Proof. reflexivity. Qed.
+Lemma tout_start : forall cs h start Sk st next,
+  tout' cs (complete cfg (EvContainerStart h) start Sk st next) =
+  match gti cs Sk with
+  | None => TyDone PPanic
+  | Some t =>
+    match map_container_start s t h with
+    | inr err => TyDone (PErr err)
+    | inl c => match validate_container s t h with
+               | Some err => TyDone (PErr err)
+               | None => TyNext (c :: cs) (mk next Sk st)
+               end
+    end
+  end.
+Proof. reflexivity. Qed.
+
+Lemma tout_start_some : forall cs h start Sk st next t c, gti cs Sk = Some t -> start_ok s t h = Some c ->
+  tout' cs (complete cfg (EvContainerStart h) start Sk st next) = TyNext (c :: cs) (mk next Sk st).
+Proof.
+  intros cs h start Sk st next t c G H. rewrite tout_start, G. unfold start_ok in H.
+  destruct (map_container_start s t h) as [c0|]; [|discriminate].
+  destruct (validate_container s t h); [discriminate|]. inversion H; subst. reflexivity.
+Qed.
+Lemma tout_start_bad : forall cs h start Sk st next,
+  match gti cs Sk with Some t => start_ok s t h = None | None => True end ->
+  exists r, tout' cs (complete cfg (EvContainerStart h) start Sk st next) = TyDone r /\ r <> POk.
+Proof.
+  intros cs h start Sk st next H. rewrite tout_start. destruct (gti cs Sk) as [t|].
+  - unfold start_ok in H. destruct (map_container_start s t h) as [c0|e].
+    + destruct (validate_container s t h) as [e|]; [|discriminate]. eexists. split; [reflexivity|discriminate].
+    + eexists. split; [reflexivity|discriminate].
+  - eexists. split; [reflexivity|discriminate].
+Qed.
+
+Definition nonmap (h : header) : bool := match h with HMap _ _ _ => false | _ => true end.
+Lemma gti_elem : forall c cs h cstart j Sk, nonmap h = true ->
+  gti (c :: cs) (anc h cstart j :: Sk) = child_for_element c j.
+Proof. intros c cs h cstart j Sk H. destruct h; try discriminate H; reflexivity. Qed.
+Lemma gti_map : forall c cs kk vk len cstart j Sk,
+  gti (c :: cs) (anc (HMap kk vk len) cstart j :: Sk) = if N.even j then child_for_key c else child_for_val c.
+Proof. reflexivity. Qed.
+
+Lemma rv_eq : forall ek Sk st k st', resolve Scrypto ek st = Ok (k, st') ->
+  rv ek Sk st = rvb k (offset cfg st) Sk st'.
+Proof.
+  intros ek Sk st k st' R. unfold read_value. destruct ek as [k0|]; cbn [resolve] in R.
+  - inversion R; subst. reflexivity.
+  - rewrite R. reflexivity.
+Qed.
+
+(* outcome of one value / a run of elements, as a function of the value-level verdict *)
+Definition VOut (ot : option tid) (v : value) (o : tout) (cs : list ctype) (tgt : list ctype * tstate) : Prop :=
+  match ot with
+  | Some t => if validates s t v then exists n, TReach o cs n tgt else TFailOut cs o
+  | None => TFailOut cs o
+  end.
+
+Definition TVB (f : nat) : Prop := forall k Sk st v rest start cs,
+  kind_ok Scrypto k = true -> nlen Sk + 1 <= md ->
+  dec_body Scrypto f md (nlen Sk + 1) k st = Ok (v, rest) ->
+  VOut (gti cs Sk) v (rvb k start Sk st) cs (cs, mk ANextChild Sk rest).
+Definition TE (f : nat) : Prop := forall ek n st vs rest h cstart i Sk c cs,
+  dec_elems Scrypto f md (nlen Sk + 1) ek n st = Ok (vs, rest) ->
+  child_count h = i + 1 + n -> (forall j, implicit_kind h j = ek) ->
+  (forall k, ek = Some k -> kind_ok Scrypto k = true) -> nonmap h = true ->
+  if elems_ok s c (i + 1) vs
+  then exists m, tysteps m (c :: cs) (mk ANextChild (anc h cstart i :: Sk) st) = Some (cs, mk ANextChild Sk rest)
+  else TFail (c :: cs) (mk ANextChild (anc h cstart i :: Sk) st).
+Definition TC (f : nat) : Prop := forall ek n st vs rest h cstart Sk c cs,
+  dec_elems Scrypto f md (nlen Sk + 1) ek n st = Ok (vs, rest) ->
+  child_count h = n -> (forall j, implicit_kind h j = ek) ->
+  (forall k, ek = Some k -> kind_ok Scrypto k = true) -> nonmap h = true ->
+  (is_u8_array h = true -> exists te, forall j, child_for_element c j = Some te) ->
+  if elems_ok s c 0 vs
+  then exists m, tysteps m (c :: cs) (mk (AContainerStart h cstart) Sk st) = Some (cs, mk ANextChild Sk rest)
+  else TFail (c :: cs) (mk (AContainerStart h cstart) Sk st).
+Definition TM (f : nat) : Prop := forall kk vk n st es rest len cstart i Sk c cs,
+  dec_entries Scrypto f md (nlen Sk + 1) kk vk n st = Ok (es, rest) ->
+  len * 2 = i + 1 + 2 * n -> N.even i = false -> kind_ok Scrypto kk = true -> kind_ok Scrypto vk = true ->
+  if entries_ok s c es
+  then exists m, tysteps m (c :: cs) (mk ANextChild (anc (HMap kk vk len) cstart i :: Sk) st) = Some (cs, mk ANextChild Sk rest)
+  else TFail (c :: cs) (mk ANextChild (anc (HMap kk vk len) cstart i :: Sk) st).
+Definition TCM (f : nat) : Prop := forall kk vk n st es rest cstart Sk c cs,
+  dec_entries Scrypto f md (nlen Sk + 1) kk vk n st = Ok (es, rest) ->
+  kind_ok Scrypto kk = true -> kind_ok Scrypto vk = true ->
+  if entries_ok s c es
+  then exists m, tysteps m (c :: cs) (mk (AContainerStart (HMap kk vk n) cstart) Sk st) = Some (cs, mk ANextChild Sk rest)
+  else TFail (c :: cs) (mk (AContainerStart (HMap kk vk n) cstart) Sk st).
+
+(* one child value read through `read_value` under the typed stack (c :: cs) *)
+Lemma TV_of : forall f, TVB f -> forall ek k Sk st st' v rest cs,
+  resolve Scrypto ek st = Ok (k, st') -> (forall k0, ek = Some k0 -> kind_ok Scrypto k0 = true) ->
+  nlen Sk + 1 <= md -> dec_body Scrypto f md (nlen Sk + 1) k st' = Ok (v, rest) ->
+  VOut (gti cs Sk) v (rv ek Sk st) cs (cs, mk ANextChild Sk rest).
+Proof.
+  intros f H ek k Sk st st' v rest cs R Hk Hd D.
+  destruct (resolve_len Scrypto _ _ _ _ R) as [_ K]. specialize (K Hk).
+  rewrite (rv_eq _ _ _ _ _ R). apply H; assumption.
+Qed.
+
+(* ---------------------------------------------------------------------------------------- *)
+Lemma seq_fail : forall n cs0 st0 cs1 st1 o, tysteps n cs0 st0 = Some (cs1, st1) -> stepc st1 = o ->
+  TFailOut cs1 o -> TFail cs0 st0.
+Proof. intros n cs0 st0 cs1 st1 o R H F. eapply TFail_steps; [exact R|]. eapply TFail_S; eassumption. Qed.
+Lemma first_fail : forall cs0 st0 o, stepc st0 = o -> TFailOut cs0 o -> TFail cs0 st0.
+Proof. intros. eapply TFail_S; eassumption. Qed.
+
+Lemma VOut_terminal : forall v start Sk rest cs, is_leaf v = true ->
+  VOut (gti cs Sk) v (complete cfg (EvTerminal v) start Sk rest ANextChild) cs (cs, mk ANextChild Sk rest).
+Proof.
+  intros v start Sk rest cs L. unfold VOut. destruct (gti cs Sk) as [t|] eqn:G.
+  - destruct (check_terminal s t v) as [err|] eqn:CT.
+    + assert (V : validates s t v = false).
+      { destruct (validates s t v) eqn:V; [|reflexivity]. apply (check_terminal_iff s t v L) in V. congruence. }
+      rewrite V. left. rewrite tout_terminal, G, CT. eexists. split; [reflexivity|discriminate].
+    + assert (V : validates s t v = true) by (apply (check_terminal_iff s t v L); exact CT).
+      rewrite V. exists O, cs, (mk ANextChild Sk rest). rewrite tout_terminal, G, CT. split; reflexivity.
+  - left. rewrite tout_terminal, G. eexists. split; [reflexivity|discriminate].
+Qed.
+
+Lemma VOut_container : forall v h start Sk st1 cs rest (inner : ctype -> bool),
+  (forall t, validates s t v = match start_ok s t h with Some c => inner c | None => false end) ->
+  (forall t c, start_ok s t h = Some c ->
+     if inner c
+     then exists m, tysteps m (c :: cs) (mk (AContainerStart h start) Sk st1) = Some (cs, mk ANextChild Sk rest)
+     else TFail (c :: cs) (mk (AContainerStart h start) Sk st1)) ->
+  VOut (gti cs Sk) v (complete cfg (EvContainerStart h) start Sk st1 (AContainerStart h start)) cs
+       (cs, mk ANextChild Sk rest).
+Proof.
+  intros v h start Sk st1 cs rest inner H1 H2. unfold VOut. destruct (gti cs Sk) as [t|] eqn:G.
+  - rewrite H1. destruct (start_ok s t h) as [c|] eqn:SO.
+    + specialize (H2 t c SO). destruct (inner c).
+      * destruct H2 as [m R]. exists m, (c :: cs), (mk (AContainerStart h start) Sk st1).
+        split; [eapply tout_start_some; eassumption|exact R].
+      * right. exists (c :: cs), (mk (AContainerStart h start) Sk st1).
+        split; [eapply tout_start_some; eassumption|exact H2].
+    + left. apply tout_start_bad. rewrite G. exact SO.
+  - left. apply tout_start_bad. rewrite G. exact I.
+Qed.
+
+Lemma TE_step : forall f, TVB f -> TE f -> TE (S f).
+Proof.
+  intros f HV HE ek n st vs rest h cstart i Sk c cs D Hc Hi Hk Hn. rewrite dec_elems_S' in D.
+  destruct (n =? 0) eqn:N0.
+  - apply N.eqb_eq in N0. subst n. inversion D; subst. cbn [elems_ok]. exists 1%nat.
+    cbn [tysteps]. unfold typed_step. rewrite step_next_end by lia. rewrite tout_end. reflexivity.
+  - apply N.eqb_neq in N0.
+    destruct (resolve Scrypto ek st) as [[k st']| | |] eqn:R; cbn [bind] in D; try discriminate.
+    destruct (dec_deeper Scrypto f md (nlen Sk + 1) k st') as [[v st1]| | |] eqn:D1; cbn [bind] in D; try discriminate.
+    destruct (dec_elems Scrypto f md (nlen Sk + 1) ek (n - 1) st1) as [[vs' st2]| | |] eqn:D2; cbn [bind] in D; try discriminate.
+    inversion D; subst vs rest. clear D.
+    apply deeper_ok in D1. destruct D1 as [Dd D1].
+    set (Sk1 := anc h cstart (i + 1) :: Sk).
+    assert (St : stepc (mk ANextChild (anc h cstart i :: Sk) st) = rv ek Sk1 st).
+    { rewrite step_next_child by lia. rewrite Hi. reflexivity. }
+    assert (VO := TV_of f HV ek k Sk1 st st' v st1 (c :: cs) R Hk).
+    unfold Sk1 in VO at 1 2. rewrite nlen_cons in VO. specialize (VO ltac:(lia) D1).
+    unfold Sk1 in VO at 1. rewrite (gti_elem c cs h cstart (i + 1) Sk Hn) in VO.
+    assert (IH := HE ek (n - 1) st1 vs' st2 h cstart (i + 1) Sk c cs D2 ltac:(lia) Hi Hk Hn).
+    cbn [elems_ok]. unfold VOut in VO. destruct (child_for_element c (i + 1)) as [t|].
+    + destruct (validates s t v); cbn [andb].
+      * destruct VO as [n1 RO]. pose proof (tysteps_S _ _ _ _ _ St RO) as R1.
+        destruct (elems_ok s c (i + 1 + 1) vs').
+        { destruct IH as [m2 R2]. exists (S n1 + m2)%nat. rewrite (tysteps_app _ m2 _ _ _ _ R1). exact R2. }
+        { eapply TFail_steps; eassumption. }
+      * eapply first_fail; eassumption.
+    + eapply first_fail; eassumption.
+Qed.
+
+Lemma TC_step : forall f, TVB f -> TE f -> TC (S f).
+Proof.
+  intros f HV HE ek n st vs rest h cstart Sk c cs D Hc Hi Hk Hn Hu.
+  destruct (N.eq_dec n 0) as [N0|N0].
+  - rewrite dec_elems_S', N0 in D. change (0 =? 0) with true in D. cbv iota in D. inversion D; subst vs rest.
+    cbn [elems_ok]. exists 1%nat. cbn [tysteps]. unfold typed_step.
+    rewrite step_cs_empty by (rewrite Hc; exact N0). rewrite tout_end. reflexivity.
+  - destruct (is_u8_array h) eqn:U.
+    + destruct (u8_array_inv h ek U Hi) as [Eek [l Eh]]. subst ek h. cbn [child_count] in Hc. subst l.
+      assert (Dd : nlen Sk + 1 + 1 <= md).
+      { rewrite dec_elems_S' in D. replace (n =? 0) with false in D by (symmetry; apply N.eqb_neq; exact N0).
+        cbn [resolve bind] in D. destruct (dec_deeper Scrypto f md (nlen Sk + 1) (KInt U8) st) as [[v st1]| | |] eqn:D1; cbn [bind] in D; try discriminate.
+        apply deeper_ok in D1. tauto. }
+      destruct (u8_elems_values _ _ _ _ _ _ _ _ D) as [b [R Ev]]. subst vs.
+      assert (L := read_slice_len _ _ _ _ R).
+      assert (NE : b <> []) by (intro E; subst b; cbn in L; lia).
+      destruct (Hu eq_refl) as [te Hte].
+      rewrite (elems_ok_uniform s c te Hte).
+      set (h := HArray (KInt U8) n) in *.
+      assert (St : stepc (mk (AContainerStart h cstart) Sk st) =
+                   complete cfg (EvBatch b) (offset cfg st) (anc h cstart (n - 1) :: Sk) rest ANextChild).
+      { rewrite step_cs_batch by (unfold h; cbn [child_count is_u8_array]; try lia; reflexivity).
+        unfold h; cbn [child_count]. rewrite R. reflexivity. }
+      assert (G : gti (c :: cs) (anc h cstart (n - 1) :: Sk) = Some te) by (rewrite gti_elem by reflexivity; apply Hte).
+      destruct (check_batch s te b) as [err|] eqn:CB.
+      * assert (V : forallb (validates s te) (map u8val b) = false).
+        { destruct (forallb (validates s te) (map u8val b)) eqn:V; [|reflexivity].
+          apply (check_batch_iff s te b NE) in V. congruence. }
+        rewrite V. exists O, (c :: cs), (mk (AContainerStart h cstart) Sk st), (PErr err).
+        split; [reflexivity|]. split; [|discriminate]. unfold typed_step. rewrite St, tout_batch, G, CB. reflexivity.
+      * assert (V : forallb (validates s te) (map u8val b) = true) by (apply (check_batch_iff s te b NE); exact CB).
+        rewrite V. exists 2%nat. cbn [tysteps]. unfold typed_step at 1. rewrite St, tout_batch, G, CB.
+        unfold typed_step. rewrite step_next_end by (unfold h; cbn [child_count]; lia). rewrite tout_end. reflexivity.
+    + rewrite dec_elems_S' in D. replace (n =? 0) with false in D by (symmetry; apply N.eqb_neq; exact N0).
+      destruct (resolve Scrypto ek st) as [[k st']| | |] eqn:R; cbn [bind] in D; try discriminate.
+      destruct (dec_deeper Scrypto f md (nlen Sk + 1) k st') as [[v st1]| | |] eqn:D1; cbn [bind] in D; try discriminate.
+      destruct (dec_elems Scrypto f md (nlen Sk + 1) ek (n - 1) st1) as [[vs' st2]| | |] eqn:D2; cbn [bind] in D; try discriminate.
+      inversion D; subst vs rest. clear D.
+      apply deeper_ok in D1. destruct D1 as [Dd D1].
+      set (Sk1 := anc h cstart 0 :: Sk).
+      assert (St : stepc (mk (AContainerStart h cstart) Sk st) = rv ek Sk1 st).
+      { rewrite step_cs_child by (try lia; exact U). rewrite Hi. reflexivity. }
+      assert (VO := TV_of f HV ek k Sk1 st st' v st1 (c :: cs) R Hk).
+      unfold Sk1 in VO at 1 2. rewrite nlen_cons in VO. specialize (VO ltac:(lia) D1).
+      unfold Sk1 in VO at 1. rewrite (gti_elem c cs h cstart 0 Sk Hn) in VO.
+      assert (IH := HE ek (n - 1) st1 vs' st2 h cstart 0 Sk c cs D2 ltac:(lia) Hi Hk Hn).
+      cbn [elems_ok]. unfold VOut in VO. destruct (child_for_element c 0) as [t|].
+      * destruct (validates s t v); cbn [andb].
+        { destruct VO as [n1 RO]. pose proof (tysteps_S _ _ _ _ _ St RO) as R1.
+          destruct (elems_ok s c (0 + 1) vs').
+          - destruct IH as [m2 R2]. exists (S n1 + m2)%nat. rewrite (tysteps_app _ m2 _ _ _ _ R1). exact R2.
+          - eapply TFail_steps; eassumption. }
+        { eapply first_fail; eassumption. }
+      * eapply first_fail; eassumption.
+Qed.
+
+(* key, then value, then the remaining entries: shared by TM_step and TCM_step *)
+Lemma entry_steps : forall f, TVB f -> forall kk vk len cstart j Sk c cs st0 st st1 st2 k x es' st3,
+  kind_ok Scrypto kk = true -> kind_ok Scrypto vk = true -> N.even j = true ->
+  nlen Sk + 1 + 1 <= md ->
+  stepc st0 = rv (Some kk) (anc (HMap kk vk len) cstart j :: Sk) st ->
+  j + 1 < len * 2 ->
+  dec_body Scrypto f md (nlen Sk + 1 + 1) kk st = Ok (k, st1) ->
+  dec_body Scrypto f md (nlen Sk + 1 + 1) vk st1 = Ok (x, st2) ->
+  (if entries_ok s c es'
+   then exists m, tysteps m (c :: cs) (mk ANextChild (anc (HMap kk vk len) cstart (j + 1) :: Sk) st2) = Some (cs, mk ANextChild Sk st3)
+   else TFail (c :: cs) (mk ANextChild (anc (HMap kk vk len) cstart (j + 1) :: Sk) st2)) ->
+  if entries_ok s c ((k, x) :: es')
+  then exists m, tysteps m (c :: cs) st0 = Some (cs, mk ANextChild Sk st3)
+  else TFail (c :: cs) st0.
+Proof.
+  intros f HV kk vk len cstart j Sk c cs st0 st st1 st2 k x es' st3 Hkk Hvk Hev Dd St Hj D1 D2 IH.
+  set (h := HMap kk vk len) in *.
+  assert (VO1 := TV_of f HV (Some kk) kk (anc h cstart j :: Sk) st st k st1 (c :: cs) eq_refl).
+  rewrite nlen_cons in VO1.
+  specialize (VO1 ltac:(intros k0 E0; inversion E0; subst; exact Hkk) ltac:(lia) D1).
+  unfold h in VO1 at 1. rewrite gti_map, Hev in VO1. fold h in VO1.
+  assert (St2 : stepc (mk ANextChild (anc h cstart j :: Sk) st1) = rv (Some vk) (anc h cstart (j + 1) :: Sk) st1).
+  { rewrite step_next_child by (unfold h; cbn [child_count]; lia).
+    unfold h; cbn [implicit_kind]. rewrite even_p1, Hev. reflexivity. }
+  assert (VO2 := TV_of f HV (Some vk) vk (anc h cstart (j + 1) :: Sk) st1 st1 x st2 (c :: cs) eq_refl).
+  rewrite nlen_cons in VO2.
+  specialize (VO2 ltac:(intros k0 E0; inversion E0; subst; exact Hvk) ltac:(lia) D2).
+  unfold h in VO2 at 1. rewrite gti_map, even_p1, Hev in VO2. cbn [negb] in VO2. fold h in VO2.
+  cbn [entries_ok]. unfold VOut in VO1, VO2.
+  destruct (child_for_key c) as [tk|].
+  2:{ eapply first_fail; eassumption. }
+  destruct (validates s tk k).
+  2:{ assert (F : TFail (c :: cs) st0) by (eapply first_fail; eassumption).
+      destruct (child_for_val c); cbn [andb]; exact F. }
+  destruct VO1 as [n1 RO1]. pose proof (tysteps_S _ _ _ _ _ St RO1) as R1.
+  destruct (child_for_val c) as [tv|].
+  2:{ eapply seq_fail; eassumption. }
+  destruct (validates s tv x); cbn [andb].
+  2:{ eapply seq_fail; eassumption. }
+  destruct VO2 as [n2 RO2]. pose proof (tysteps_S _ _ _ _ _ St2 RO2) as R2.
+  destruct (entries_ok s c es').
+  - destruct IH as [m3 R3]. exists (S n1 + (S n2 + m3))%nat.
+    rewrite (tysteps_app _ _ _ _ _ _ R1). rewrite (tysteps_app _ _ _ _ _ _ R2). exact R3.
+  - eapply TFail_steps; [exact R1|]. eapply TFail_steps; [exact R2|]. exact IH.
+Qed.
+
+Lemma TM_step : forall f, TVB f -> TM f -> TM (S f).
+Proof.
+  intros f HV HM kk vk n st es rest len cstart i Sk c cs D Hc Hev Hkk Hvk. rewrite dec_entries_S in D.
+  destruct (n =? 0) eqn:N0.
+  - apply N.eqb_eq in N0. subst n. inversion D; subst. cbn [entries_ok]. exists 1%nat.
+    cbn [tysteps]. unfold typed_step. rewrite step_next_end by (cbn [child_count]; lia). rewrite tout_end. reflexivity.
+  - apply N.eqb_neq in N0.
+    destruct (dec_deeper Scrypto f md (nlen Sk + 1) kk st) as [[k st1]| | |] eqn:D1; cbn [bind] in D; try discriminate.
+    destruct (dec_deeper Scrypto f md (nlen Sk + 1) vk st1) as [[x st2]| | |] eqn:D2; cbn [bind] in D; try discriminate.
+    destruct (dec_entries Scrypto f md (nlen Sk + 1) kk vk (n - 1) st2) as [[es' st3]| | |] eqn:D3; cbn [bind] in D; try discriminate.
+    inversion D; subst es rest. clear D.
+    apply deeper_ok in D1. destruct D1 as [Dd D1]. apply deeper_ok in D2. destruct D2 as [_ D2].
+    eapply (entry_steps f HV kk vk len cstart (i + 1) Sk c cs _ st st1 st2 k x es' st3 Hkk Hvk); try eassumption.
+    + rewrite even_p1, Hev. reflexivity.
+    + rewrite step_next_child by (cbn [child_count]; lia). cbn [implicit_kind]. rewrite even_p1, Hev. reflexivity.
+    + lia.
+    + apply (HM kk vk (n - 1) st2 es' st3 len cstart (i + 1 + 1) Sk c cs D3); try assumption; [lia|].
+      rewrite !even_p1, Hev. reflexivity.
+Qed.
+
+Lemma TCM_step : forall f, TVB f -> TM f -> TCM (S f).
+Proof.
+  intros f HV HM kk vk n st es rest cstart Sk c cs D Hkk Hvk. rewrite dec_entries_S in D.
+  destruct (n =? 0) eqn:N0.
+  - apply N.eqb_eq in N0. subst n. inversion D; subst. cbn [entries_ok]. exists 1%nat.
+    cbn [tysteps]. unfold typed_step. rewrite step_cs_empty by reflexivity. rewrite tout_end. reflexivity.
+  - apply N.eqb_neq in N0.
+    destruct (dec_deeper Scrypto f md (nlen Sk + 1) kk st) as [[k st1]| | |] eqn:D1; cbn [bind] in D; try discriminate.
+    destruct (dec_deeper Scrypto f md (nlen Sk + 1) vk st1) as [[x st2]| | |] eqn:D2; cbn [bind] in D; try discriminate.
+    destruct (dec_entries Scrypto f md (nlen Sk + 1) kk vk (n - 1) st2) as [[es' st3]| | |] eqn:D3; cbn [bind] in D; try discriminate.
+    inversion D; subst es rest. clear D.
+    apply deeper_ok in D1. destruct D1 as [Dd D1]. apply deeper_ok in D2. destruct D2 as [_ D2].
+    eapply (entry_steps f HV kk vk n cstart 0 Sk c cs _ st st1 st2 k x es' st3 Hkk Hvk); try eassumption.
+    + reflexivity.
+    + rewrite step_cs_child by (cbn [child_count is_u8_array]; try lia; reflexivity). reflexivity.
+    + lia.
+    + apply (HM kk vk (n - 1) st2 es' st3 n cstart (0 + 1) Sk c cs D3); try assumption; [lia|reflexivity].
+Qed.
+
+Lemma TVB_step : forall f, TC f -> TCM f -> TVB (S f).
+Proof.
+  intros f HC HCM k Sk st v rest start cs Hk Hd D.
+  destruct (is_container k) eqn:C.
+  2:{ (* terminal *)
+    rewrite leaf_fuel_indep in D by exact C.
+    assert (L := leaf_is_leaf _ _ _ _ _ C D).
+    unfold read_value_body. destruct k; try discriminate C; rewrite D; apply VOut_terminal; exact L. }
+  rewrite dec_body_S in D. destruct k; try discriminate C; unfold read_value_body.
+  - (* Enum *)
+    destruct st as [|disc st']; cbn [read_byte bind] in D |- *; [discriminate|].
+    destruct (read_size st') as [[n st1]| | |] eqn:R; cbn [bind] in D |- *; try discriminate.
+    destruct (dec_elems Scrypto f md (nlen Sk + 1) None n st1) as [[fs st2]| | |] eqn:DE; cbn [bind] in D; try discriminate.
+    inversion D; subst v rest. clear D.
+    assert (Ln := dec_elems_nlen _ _ _ _ _ _ _ _ _ DE). subst n.
+    apply (VOut_container _ _ _ _ _ _ _ (fun c => elems_ok s c 0 fs)); [intro t; apply enum_hdr|].
+    intros t c SO. apply (HC None (nlen fs) st1 fs st2 (HEnum disc (nlen fs)) start Sk c cs DE eq_refl);
+      [reflexivity|discriminate|reflexivity|discriminate].
+  - (* Array *)
+    destruct (read_value_kind Scrypto st) as [[ek st0]| | |] eqn:RK; cbn [bind] in D |- *; try discriminate.
+    apply read_value_kind_len in RK. destruct RK as [L Hek].
+    destruct (read_size st0) as [[n st1]| | |] eqn:R; cbn [bind] in D |- *; try discriminate.
+    destruct (dec_elems Scrypto f md (nlen Sk + 1) (Some ek) n st1) as [[fs st2]| | |] eqn:DE; cbn [bind] in D; try discriminate.
+    inversion D; subst v rest. clear D.
+    assert (Ln := dec_elems_nlen _ _ _ _ _ _ _ _ _ DE). subst n.
+    apply (VOut_container _ _ _ _ _ _ _ (fun c => elems_ok s c 0 fs)); [intro t; apply array_hdr|].
+    intros t c SO. apply (HC (Some ek) (nlen fs) st1 fs st2 (HArray ek (nlen fs)) start Sk c cs DE eq_refl);
+      [reflexivity|intros k0 E0; inversion E0; subst; exact Hek|reflexivity|].
+    intros _. eapply start_ok_array_uniform. exact SO.
+  - (* Tuple *)
+    destruct (read_size st) as [[n st1]| | |] eqn:R; cbn [bind] in D |- *; try discriminate.
+    destruct (dec_elems Scrypto f md (nlen Sk + 1) None n st1) as [[fs st2]| | |] eqn:DE; cbn [bind] in D; try discriminate.
+    inversion D; subst v rest. clear D.
+    assert (Ln := dec_elems_nlen _ _ _ _ _ _ _ _ _ DE). subst n.
+    apply (VOut_container _ _ _ _ _ _ _ (fun c => elems_ok s c 0 fs)); [intro t; apply tuple_hdr|].
+    intros t c SO. apply (HC None (nlen fs) st1 fs st2 (HTuple (nlen fs)) start Sk c cs DE eq_refl);
+      [reflexivity|discriminate|reflexivity|discriminate].
+  - (* Map *)
+    destruct (read_value_kind Scrypto st) as [[kk st0]| | |] eqn:RK; cbn [bind] in D |- *; try discriminate.
+    apply read_value_kind_len in RK. destruct RK as [L Hkk].
+    destruct (read_value_kind Scrypto st0) as [[vk st0']| | |] eqn:RV; cbn [bind] in D |- *; try discriminate.
+    apply read_value_kind_len in RV. destruct RV as [L' Hvk].
+    destruct (read_size st0') as [[n st1]| | |] eqn:R; cbn [bind] in D |- *; try discriminate.
+    destruct (dec_entries Scrypto f md (nlen Sk + 1) kk vk n st1) as [[es st2]| | |] eqn:DE; cbn [bind] in D; try discriminate.
+    inversion D; subst v rest. clear D.
+    assert (Ln := dec_entries_nlen _ _ _ _ _ _ _ _ _ _ DE). subst n.
+    apply (VOut_container _ _ _ _ _ _ _ (fun c => entries_ok s c es)); [intro t; apply map_hdr|].
+    intros t c SO. apply (HCM kk vk (nlen es) st1 es st2 start Sk c cs DE Hkk Hvk).
+Qed.
+
+Lemma T_all : forall f, TVB f /\ TE f /\ TC f /\ TM f /\ TCM f.
+Proof.
+  induction f as [|f [IV [IE [IC [IM ICM]]]]].
+  - repeat split; repeat intro; discriminate.
+  - split; [apply TVB_step; assumption|]. split; [apply TE_step; assumption|].
+    split; [apply TC_step; assumption|]. split; [apply TM_step; assumption|apply TCM_step; assumption].
+Qed.
+
+End Machine.
